@@ -11,7 +11,7 @@
    - block difficulties below 2^192 (a header above cannot pass the PoW check). *)
 From Coq Require Import NArith List.
 From LC Require Import Matching Difficulty LastStateProof MatchingProofs DifficultyProofs2 LastStateProofProofs ExecPanicProofs HashesUpdate HashesUpdateProofs.
-From LC Require Filters FiltersChecked FiltersPanicProofs CheckPoints CheckPointsChecked CheckPointsPanicProofs.
+From LC Require Filters FiltersChecked FiltersPanicProofs CheckPoints CheckPointsChecked CheckPointsPanicProofs MatchedBlocks MatchedBlocksProofs.
 Import ListNotations.
 Open Scope N_scope.
 
@@ -126,3 +126,33 @@ Print Assumptions C10_check_points_checked_model_is_the_C07_model.
 Example C10_check_points_range_example :
   CheckPointsPanicProofs.cp_range 2000 (CheckPoints.mkCps 3 [11; 12]) [12; 13; 14].
 Proof. constructor; [reflexivity | discriminate | vm_compute; discriminate]. Qed.
+
+(* the SendBlock handler (sync protocol): its three aborts - expect("get matched blocks from storage"),
+   assert_eq!(blocks.len(), db_blocks.len()), assert!(db_blocks.contains(..)) - are unreachable because the in-memory download
+   table is always empty or the image of the EARLIEST pending record.  Model/MatchedBlocks.v has every operation that touches the
+   records or the table (filter batch, block arrival, filter timer, set_scripts, fork rollback, restart); the invariant is kept
+   by each of them, under it no step unwinds, hence no history does.  The one hypothesis on histories: a batch is recorded behind
+   the pending records (it starts right after the current filter progress).  The invariant is checked on the implementation
+   after every step of ops c06 and c08 (class C10-table-does-not-mirror-earliest-record). *)
+Theorem C10_send_block_invariant_kept :
+  forall s e s',
+    MatchedBlocksProofs.table_inv s -> MatchedBlocksProofs.recs_ok s -> MatchedBlocksProofs.ev_ok s e ->
+    MatchedBlocks.mstep s e = Ok s' -> MatchedBlocksProofs.table_inv s' /\ MatchedBlocksProofs.recs_ok s'.
+Proof. exact MatchedBlocksProofs.mstep_keeps_inv. Qed.
+Print Assumptions C10_send_block_invariant_kept.
+
+Theorem C10_send_block_never_panics :
+  forall evs s,
+    MatchedBlocksProofs.table_inv s -> MatchedBlocksProofs.recs_ok s -> MatchedBlocksProofs.evs_ok s evs ->
+    is_panic (MatchedBlocks.mrun s evs) = false.
+Proof. exact MatchedBlocksProofs.mrun_never_panics. Qed.
+Print Assumptions C10_send_block_never_panics.
+
+(* non-vacuity: a fresh client satisfies the invariant; two batches, the bodies of the first, a rollback, a restart, the timer *)
+Example C10_send_block_example :
+  MatchedBlocksProofs.table_inv (MatchedBlocks.mkMB [] []) /\ MatchedBlocksProofs.recs_ok (MatchedBlocks.mkMB [] []) /\
+  MatchedBlocks.mrun (MatchedBlocks.mkMB [] [])
+    [MatchedBlocks.M_batch 5 [11; 12]; MatchedBlocks.M_batch 9 [21]; MatchedBlocks.M_block 12; MatchedBlocks.M_block 11;
+     MatchedBlocks.M_restart; MatchedBlocks.M_timer; MatchedBlocks.M_block 21]
+  = Ok (MatchedBlocks.mkMB [] []).
+Proof. split; [left; reflexivity|]. split; [constructor|]. vm_compute. reflexivity. Qed.
